@@ -364,8 +364,7 @@ func (fr *Frame) binop(x *ssa.BinOp, st *State, g string) {
 	case token.LSS, token.LEQ, token.GTR, token.GEQ:
 		op := map[token.Token]string{token.LSS: "<", token.LEQ: "<=", token.GTR: ">", token.GEQ: ">="}[x.Op]
 		if tc.sortOf(t) == "Str" {
-			fc.unsupported("string ordering")
-			fr.freshVal(x, st, g)
+			fr.setVal(x, "Bool", fc.strOrder(op, a.t, b.t)) // ext_strorder.go: strict total order strlt
 			return
 		}
 		fr.setVal(x, "Bool", app(op, a.t, b.t))
